@@ -115,12 +115,14 @@ func project(nodes []core_domain.CodeDataStruct, root string) []TypeObs {
 			t.Fns = append(t.Fns, fo)
 		}
 		// the order of functions inside a type is not promised (C08): canonical order by (line, name)
-		sort.SliceStable(t.Fns, func(i, j int) bool {
-			if t.Fns[i].Line != t.Fns[j].Line {
-				return t.Fns[i].Line < t.Fns[j].Line
+		key := func(f FnObs) string {
+			k := fmt.Sprintf("%06d|%s|%s|", f.Line, f.Name, f.Ret)
+			for _, p := range f.Params {
+				k += p.Type + " " + p.Name + ","
 			}
-			return t.Fns[i].Name < t.Fns[j].Name
-		})
+			return k
+		}
+		sort.SliceStable(t.Fns, func(i, j int) bool { return key(t.Fns[i]) < key(t.Fns[j]) })
 		out = append(out, t)
 	}
 	return out
